@@ -415,7 +415,7 @@ func GenListSized(r *prng.R, idx, maxStyles, maxRegions, maxItems int) ListSpec 
 		m := &astisub.Metadata{}
 		if r.Bool(0.6) {
 			m.Title = asciiSentence(r, 1, 3)
-			m.Language = r.Pick(astisub.LanguageFrench, astisub.LanguageEnglish, "", "xx")
+			m.Language = r.Pick(astisub.LanguageFrench, astisub.LanguageEnglish, astisub.LanguageNorwegian, astisub.LanguageChinese, astisub.LanguageJapanese, "", "xx")
 			m.Framerate = r.PickInt(25, 30)
 			m.TTMLCopyright = r.Pick("", "(c) someone")
 			m.SSAScriptType = r.Pick("v4.00", "v4.00+", "")
